@@ -185,6 +185,14 @@ fn run_batch(prop: &str, seed: u64, start: u64, count: u64, replay_dir: &str, pr
                 v.push(base.clone());
                 v
             }
+            // a quarter of the C10 scenarios are also run with a raw fault in a multi-member release
+            "C10" if idx % 4 == 1 => {
+                let pilot = interp::run_scenario(&base);
+                out.pilots += 1;
+                let mut v = gen::c10_release_fault_variants(&base, &pilot.out.api_log, run_seed);
+                v.insert(0, base.clone());
+                v
+            }
             _ => vec![base],
         };
         if foreign {
@@ -329,6 +337,27 @@ fn main() {
             match get("--out") {
                 Some(p) => std::fs::write(p, s).unwrap(),
                 None => println!("{}", s),
+            }
+        }
+        Some("variants") => {
+            // debugging aid: write the fault variants of one base scenario as replay files
+            let prop = get("--prop").expect("--prop");
+            let seed: u64 = get("--seed").map(|s| s.parse().unwrap()).unwrap_or(20260927);
+            let idx: u64 = get("--index").map(|s| s.parse().unwrap()).unwrap_or(0);
+            let dir = get("--out").unwrap_or_else(|| "/tmp".into());
+            let run_seed = rng::derive(seed, tag_of(&prop), idx);
+            let base = gen::generate(&prop, run_seed);
+            let pilot = interp::run_scenario(&base);
+            let vs = match prop.as_str() {
+                "C12" => gen::c12_variants(&base, &pilot.out.api_log, run_seed),
+                "C10" => gen::c10_release_fault_variants(&base, &pilot.out.api_log, run_seed),
+                _ => gen::c11_variants(&base, run_seed),
+            };
+            for (i, v) in vs.iter().enumerate() {
+                let rf = ReplayFile { property: prop.clone(), clause: "?".into(), detail: String::new(), verif_seed: seed, run_index: idx, run_seed, minimised: false, fingerprint: 0, scenario: v.clone() };
+                let p = format!("{}/variant-{}-{}-{}.replay.json", dir, prop, idx, i);
+                std::fs::write(&p, serde_json::to_string_pretty(&rf).unwrap()).unwrap();
+                println!("{} {:?}", p, v.cfg.faults);
             }
         }
         Some("static") => {
